@@ -14,6 +14,16 @@ package packagedeploy
 // for every collision count).  The harness checks every declared collision against the real hash function
 // (BAD-COLL otherwise), prints both contents' names under the representative's symbolic name, and aborts with
 // UNDECLARED-COLLISION if two contents that are not declared to collide get the same real name.
+//
+// Objects carry ALL fields of corev1alpha1.ObjectSetObject: .object (padded to the wanted JSON length),
+// .collisionProtection (`cps`) and .conditionMappings (`cms`), chosen per object by the scenario.  Whatever the code
+// under test hands back (chunks, slice contents, inline phase objects) is compared with the pristine object the
+// scenario describes by deep equality of the WHOLE ObjectSetObject: an object is printed as its id only if it is equal
+// in every field, otherwise as `id~fp` (fp = collisionProtection number + 10 * conditionMappings table entry as
+// found, + 100 when the difference is elsewhere).  The code under test only ever gets deep copies.
+//
+// ObjectSets of the histories carry .spec.lifecycleState (op `life`: Active / Paused / Archived) and a
+// deletionTimestamp held back by the finalizer (op `markdel`); they EXIST until op `delos` removes them.
 
 import (
 	"context"
@@ -24,7 +34,9 @@ import (
 	"strconv"
 	"strings"
 	"testing"
+	"time"
 
+	"k8s.io/apimachinery/pkg/api/equality"
 	apierrors "k8s.io/apimachinery/pkg/api/errors"
 	metav1 "k8s.io/apimachinery/pkg/apis/meta/v1"
 	"k8s.io/apimachinery/pkg/apis/meta/v1/unstructured"
@@ -58,9 +70,13 @@ type c14Coll struct {
 }
 
 type c14Op struct {
-	Op     string  `json:"op"`     // chunk | deploy | snap | delos
+	Op     string  `json:"op"`     // chunk | deploy | snap | delos | life | markdel
 	Phases [][]int `json:"phases"` // chunk, deploy: phases as lists of object ids
-	I      int     `json:"i"`      // delos: index into the existing ObjectSets
+	I      int     `json:"i"`      // delos, life, markdel: index into the existing ObjectSets
+	// life: the .spec.lifecycleState the i-th ObjectSet gets (active | paused | archived).  The ObjectSet still exists.
+	// markdel: the i-th ObjectSet gets a deletionTimestamp but is held by its finalizer: it still exists.
+	// delos: the i-th ObjectSet is gone from the API.
+	St string `json:"st,omitempty"`
 }
 
 type c14Scn struct {
@@ -71,6 +87,21 @@ type c14Scn struct {
 	Pre   []c14Pre  `json:"pre"`   // ObjectSlices that exist before the first op (collision oracle)
 	Coll  []c14Coll `json:"coll"`  // real hash collisions among the contents of this scenario
 	Ops   []c14Op   `json:"ops"`
+	// the rest of every ObjectSetObject, by object id (missing: 0): index into c14CPs (collisionProtection) and
+	// into c14CMs (conditionMappings)
+	Cps []int `json:"cps"`
+	Cms []int `json:"cms"`
+}
+
+var c14CPs = []corev1alpha1.CollisionProtection{"", corev1alpha1.CollisionProtectionPrevent,
+	corev1alpha1.CollisionProtectionIfNoController, corev1alpha1.CollisionProtectionNone}
+
+var c14CMs = [][]corev1alpha1.ConditionMapping{
+	nil,
+	{{SourceType: "Available", DestinationType: "my-app.example.com/Available"}},
+	{{SourceType: "Available", DestinationType: "my-app.example.com/Available"},
+		{SourceType: "Degraded", DestinationType: "my-app.example.com/Degraded"}},
+	{{SourceType: "Progressing", DestinationType: "other.example.com/Progressing"}},
 }
 
 const (
@@ -95,8 +126,16 @@ func c14Pad(n int) string {
 	return s
 }
 
-// c14Obj builds object `id` whose json.Marshal(obj.Object) has exactly `size` bytes (size 0: not marshalable).
-func c14Obj(id, size int) corev1alpha1.ObjectSetObject {
+// c14Obj builds object `id` whose json.Marshal(obj.Object) has exactly `size` bytes (size 0: not marshalable),
+// with collisionProtection c14CPs[cp] and conditionMappings c14CMs[cm].
+func c14Obj(id, size, cp, cm int) corev1alpha1.ObjectSetObject {
+	o := c14BareObj(id, size)
+	o.CollisionProtection = c14CPs[cp]
+	o.ConditionMappings = append([]corev1alpha1.ConditionMapping(nil), c14CMs[cm]...)
+	return o
+}
+
+func c14BareObj(id, size int) corev1alpha1.ObjectSetObject {
 	data := map[string]any{"p": ""}
 	u := unstructured.Unstructured{Object: map[string]any{
 		"apiVersion": "v1", "kind": "ConfigMap",
@@ -104,7 +143,7 @@ func c14Obj(id, size int) corev1alpha1.ObjectSetObject {
 		"data":     data,
 	}}
 	if size == 0 {
-		data["p"] = math.NaN()
+		data["p"] = math.Inf(1) // json: unsupported value; unlike NaN it is equal to itself (deep equality)
 		return corev1alpha1.ObjectSetObject{Object: u}
 	}
 	b, err := json.Marshal(u)
@@ -122,10 +161,47 @@ func c14ID(o corev1alpha1.ObjectSetObject) string {
 	return strings.TrimPrefix(o.Object.GetName(), "o")
 }
 
-func c14IDs(objs []corev1alpha1.ObjectSetObject, sep string) string {
+func c14At(l []int, i int) int {
+	if i >= 0 && i < len(l) {
+		return l[i]
+	}
+	return 0
+}
+
+// tok prints one object the code under test handed back: its id if it is, in EVERY field of the ObjectSetObject,
+// the object the scenario describes for that id; otherwise id~fp with the fingerprint of what was found.
+func (x *c14Ctx) tok(o corev1alpha1.ObjectSetObject) string {
+	ids := c14ID(o)
+	id, err := strconv.Atoi(ids)
+	if err != nil || id < 0 || id >= len(x.scn.Sizes) {
+		return ids
+	}
+	want := x.obj(id)
+	if equality.Semantic.DeepEqual(o, want) {
+		return ids
+	}
+	cp, cm := 9, 9
+	for i, v := range c14CPs {
+		if v == o.CollisionProtection {
+			cp = i
+		}
+	}
+	for i, v := range c14CMs {
+		if equality.Semantic.DeepEqual(v, o.ConditionMappings) {
+			cm = i
+		}
+	}
+	fp := cp + 10*cm
+	if !equality.Semantic.DeepEqual(o.Object, want.Object) || fp == c14At(x.scn.Cps, id)+10*c14At(x.scn.Cms, id) {
+		fp += 100
+	}
+	return fmt.Sprintf("%s~%d", ids, fp)
+}
+
+func (x *c14Ctx) toks(objs []corev1alpha1.ObjectSetObject, sep string) string {
 	out := make([]string, len(objs))
 	for i, o := range objs {
-		out[i] = c14ID(o)
+		out[i] = x.tok(o)
 	}
 	return strings.Join(out, sep)
 }
@@ -307,20 +383,23 @@ func (x *c14Ctx) canon(ids []int) []int {
 	return ids
 }
 
+// obj is the PRISTINE object `id` of the scenario; it is only ever compared against, never handed out.
 func (x *c14Ctx) obj(id int) corev1alpha1.ObjectSetObject {
 	if o, ok := x.objs[id]; ok {
 		return o
 	}
-	o := c14Obj(id, x.scn.Sizes[id])
+	o := c14Obj(id, x.scn.Sizes[id], c14At(x.scn.Cps, id), c14At(x.scn.Cms, id))
 	x.objs[id] = o
 	return o
 }
 
+// content builds fresh deep copies (the padding string is shared, the maps are not).
 func (x *c14Ctx) content(ids []int) []corev1alpha1.ObjectSetObject {
 	// exactly the shape chunkPhase hands to slice.SetObjects: a non-nil slice of objects
 	out := make([]corev1alpha1.ObjectSetObject, 0, len(ids))
 	for _, id := range ids {
-		out = append(out, x.obj(id))
+		o := x.obj(id)
+		out = append(out, *o.DeepCopy())
 	}
 	return out
 }
@@ -349,8 +428,24 @@ func (x *c14Ctx) symbolic(real string, content []corev1alpha1.ObjectSetObject) s
 		return s
 	}
 	ids := make([]int, len(content))
+	pristine := true
 	for i, o := range content {
 		ids[i], _ = strconv.Atoi(c14ID(o))
+		if strings.Contains(x.tok(o), "~") {
+			pristine = false
+		}
+	}
+	if !pristine {
+		// the slice holds objects that are not the scenario's: is it named by the hash of what it holds?
+		for cc := 0; cc < c14MaxC; cc++ {
+			c32 := int32(cc)
+			if c14Dep+"-"+utils.ComputeFNV32Hash(content, &c32) == real {
+				sym := x.toks(content, "_") + "." + strconv.Itoa(cc)
+				x.names[real] = sym
+				return sym
+			}
+		}
+		return "?" + real
 	}
 	for cc := 0; cc < c14MaxC; cc++ {
 		if x.realName(ids, cc) == real {
@@ -374,6 +469,16 @@ func c14Valid(s c14Scn) bool {
 	}
 	for _, sz := range s.Sizes {
 		if sz != 0 && sz < c14MinSize {
+			return false
+		}
+	}
+	for _, v := range s.Cps {
+		if v < 0 || v >= len(c14CPs) {
+			return false
+		}
+	}
+	for _, v := range s.Cms {
+		if v < 0 || v >= len(c14CMs) {
 			return false
 		}
 	}
@@ -424,7 +529,11 @@ func c14Valid(s c14Scn) bool {
 					return false
 				}
 			}
-		case "snap", "delos":
+		case "snap", "delos", "markdel":
+		case "life":
+			if op.St != "active" && op.St != "paused" && op.St != "archived" {
+				return false
+			}
 		default:
 			return false
 		}
@@ -461,7 +570,7 @@ func (x *c14Ctx) sliceEntry(k string) string {
 	} else {
 		flags += "-"
 	}
-	ids := c14IDs(s.Objects, "_")
+	ids := x.toks(s.Objects, "_")
 	if ids == "" {
 		ids = "e"
 	}
@@ -482,7 +591,7 @@ func (x *c14Ctx) template() string {
 			}
 			names = append(names, x.symbolic(n, content))
 		}
-		phs = append(phs, c14IDs(ph.Objects, ",")+"|"+strings.Join(names, ","))
+		phs = append(phs, x.toks(ph.Objects, ",")+"|"+strings.Join(names, ","))
 	}
 	return "@" + strings.Join(phs, "/")
 }
@@ -503,9 +612,60 @@ func (x *c14Ctx) symbolicKeys(keys []string, contents map[string][]corev1alpha1.
 	return strings.Join(out, ",")
 }
 
+// c14ExecTags: coverage facts c14Exec observed about the run (read by c14Tags right after).
+var c14ExecTags []string
+
+// pinTags: which slices are, after a reconcile, kept alive ONLY by an ObjectSet that is archived / paused in spec or
+// being deleted (neither the template nor an active ObjectSet references them).
+func (x *c14Ctx) pinTags(nForeign int) {
+	ref := map[string]bool{}
+	if x.c.deploy != nil {
+		for _, ph := range x.c.deploy.Spec.Template.Spec.Phases {
+			for _, n := range ph.Slices {
+				ref[n] = true
+			}
+		}
+	}
+	inactive := func(os *corev1alpha1.ObjectSet) string {
+		switch {
+		case os.Spec.LifecycleState == corev1alpha1.ObjectSetLifecycleStateArchived && os.DeletionTimestamp != nil:
+			return "archived+deleting"
+		case os.Spec.LifecycleState == corev1alpha1.ObjectSetLifecycleStateArchived:
+			return "archived"
+		case os.DeletionTimestamp != nil:
+			return "deleting"
+		case os.Spec.LifecycleState == corev1alpha1.ObjectSetLifecycleStatePaused:
+			return "paused"
+		}
+		return ""
+	}
+	for _, os := range x.c.objectSets[nForeign:] {
+		if inactive(os) == "" {
+			for _, ph := range os.Spec.Phases {
+				for _, n := range ph.Slices {
+					ref[n] = true
+				}
+			}
+		}
+	}
+	for _, os := range x.c.objectSets[nForeign:] {
+		if st := inactive(os); st != "" {
+			c14ExecTags = append(c14ExecTags, "gc:with-"+st+"-objectset")
+			for _, ph := range os.Spec.Phases {
+				for _, n := range ph.Slices {
+					if !ref[n] {
+						c14ExecTags = append(c14ExecTags, "gc:slice-pinned-only-by-"+st+"-objectset")
+					}
+				}
+			}
+		}
+	}
+}
+
 var c14Foreign = []string{c14NS + "/other-aaaa", "otherns/" + c14Dep + "-bbbb"}
 
 func c14Exec(s c14Scn) string {
+	c14ExecTags = nil
 	if !c14Valid(s) {
 		return "BAD-SCN"
 	}
@@ -544,12 +704,12 @@ func c14Exec(s c14Scn) string {
 		c.slices[c14Foreign[0]] = &corev1alpha1.ObjectSlice{
 			ObjectMeta: metav1.ObjectMeta{Name: "other-aaaa", Namespace: c14NS, UID: c.uid(),
 				Labels: map[string]string{sliceOwnerLabel: "other"}},
-			Objects: []corev1alpha1.ObjectSetObject{c14Obj(900001, 200)},
+			Objects: []corev1alpha1.ObjectSetObject{c14Obj(900001, 200, 1, 1)},
 		}
 		c.slices[c14Foreign[1]] = &corev1alpha1.ObjectSlice{
 			ObjectMeta: metav1.ObjectMeta{Name: c14Dep + "-bbbb", Namespace: "otherns", UID: c.uid(),
 				Labels: map[string]string{sliceOwnerLabel: c14Dep}},
-			Objects: []corev1alpha1.ObjectSetObject{c14Obj(900002, 200)},
+			Objects: []corev1alpha1.ObjectSetObject{c14Obj(900002, 200, 0, 0)},
 		}
 		c.objectSets = append(c.objectSets,
 			&corev1alpha1.ObjectSet{ObjectMeta: metav1.ObjectMeta{Name: "other-1", Namespace: c14NS, UID: c.uid(),
@@ -636,12 +796,16 @@ func c14Exec(s c14Scn) string {
 				default:
 					var cs []string
 					for _, ch := range chunks {
-						cs = append(cs, c14IDs(ch, ","))
+						cs = append(cs, x.toks(ch, ","))
 					}
 					pouts = append(pouts, strings.Join(cs, "+"))
 				}
-				// the chunker must not modify the phase it was given
-				if c14IDs(ph.Objects, ",") != c14IDs(x.content(ids), ",") {
+				// the chunker must not modify the phase it was given (deep comparison with the pristine objects)
+				wantToks := make([]string, len(ids))
+				for i, id := range ids {
+					wantToks[i] = strconv.Itoa(id)
+				}
+				if x.toks(ph.Objects, ",") != strings.Join(wantToks, ",") {
 					pouts[len(pouts)-1] += "!phase-modified"
 				}
 			}
@@ -667,6 +831,8 @@ func c14Exec(s c14Scn) string {
 			res := "ok"
 			if err != nil {
 				res = "err"
+			} else {
+				x.pinTags(nForeignSets)
 			}
 			for k, sl := range c.slices {
 				before[k] = sl.Objects
@@ -703,7 +869,7 @@ func c14Exec(s c14Scn) string {
 			rev++
 			os := &corev1alpha1.ObjectSet{
 				ObjectMeta: metav1.ObjectMeta{Name: fmt.Sprintf("%s-rev%d", c14Dep, rev), Namespace: c14NS,
-					UID: c.uid(), Labels: selector},
+					UID: c.uid(), Labels: selector, Finalizers: []string{"package-operator.run/cached"}},
 				Spec: corev1alpha1.ObjectSetSpec{ObjectSetTemplateSpec: *c.deploy.Spec.Template.Spec.DeepCopy()},
 			}
 			c.objectSets = append(c.objectSets, os)
@@ -715,6 +881,46 @@ func c14Exec(s c14Scn) string {
 				c.objectSets = append(c.objectSets[:j:j], c.objectSets[j+1:]...)
 			}
 			outs = append(outs, fmt.Sprintf("O %d", len(c.objectSets)-nForeignSets))
+		case "life", "markdel":
+			// the ObjectDeployment controller archives / pauses a revision, somebody deletes it while its teardown
+			// is not finished (finalizer): either way the ObjectSet still exists and is still listed
+			own := len(c.objectSets) - nForeignSets
+			if op.I >= 0 && op.I < own {
+				os := c.objectSets[nForeignSets+op.I]
+				if op.Op == "markdel" {
+					now := metav1.NewTime(time.Unix(1000, 0))
+					os.DeletionTimestamp = &now
+				} else {
+					switch op.St {
+					case "active":
+						os.Spec.LifecycleState = corev1alpha1.ObjectSetLifecycleStateActive
+					case "paused":
+						os.Spec.LifecycleState = corev1alpha1.ObjectSetLifecycleStatePaused
+					case "archived":
+						os.Spec.LifecycleState = corev1alpha1.ObjectSetLifecycleStateArchived
+					}
+				}
+			}
+			var sts []string
+			for _, os := range c.objectSets[nForeignSets:] {
+				st := "?"
+				switch os.Spec.LifecycleState {
+				case "", corev1alpha1.ObjectSetLifecycleStateActive:
+					st = "a"
+				case corev1alpha1.ObjectSetLifecycleStatePaused:
+					st = "p"
+				case corev1alpha1.ObjectSetLifecycleStateArchived:
+					st = "r"
+				}
+				if os.DeletionTimestamp != nil {
+					st += "d"
+				}
+				sts = append(sts, st)
+			}
+			if len(sts) == 0 {
+				sts = []string{"-"}
+			}
+			outs = append(outs, "E "+strings.Join(sts, ","))
 		}
 	}
 	if x.undecl != "" {
@@ -774,6 +980,24 @@ func c14Tags(s c14Scn, out string) []string {
 	}
 	for _, op := range s.Ops {
 		add("op=" + op.Op)
+		if op.Op == "life" {
+			add("life=" + op.St)
+		}
+		if op.Op == "chunk" || op.Op == "deploy" {
+			for _, ph := range op.Phases {
+				for _, id := range ph {
+					if c14At(s.Cps, id) != 0 {
+						add("obj:collisionProtection")
+					}
+					if c14At(s.Cms, id) != 0 {
+						add("obj:conditionMappings")
+					}
+				}
+			}
+		}
+	}
+	for _, t := range c14ExecTags {
+		add(t)
 	}
 	for _, st := range strings.Split(out, ";") {
 		switch {
@@ -850,6 +1074,12 @@ func TestVerifC14Deploy(t *testing.T) {
 		if s.Coll == nil {
 			s.Coll = []c14Coll{}
 		}
+		if s.Cps == nil {
+			s.Cps = []int{}
+		}
+		if s.Cms == nil {
+			s.Cms = []int{}
+		}
 		for i := range s.Coll {
 			for _, p := range []*[]int{&s.Coll[i].A, &s.Coll[i].B, &s.Coll[i].SA, &s.Coll[i].SB} {
 				if *p == nil {
@@ -889,17 +1119,22 @@ func TestVerifC14Deploy(t *testing.T) {
 	L := limit
 	palette := []int{c14MinSize, L / 3, L/2 - 1, L / 2, L/2 + 1, L - c14MinSize - 1, L - c14MinSize, L - c14MinSize + 1, L - 1, L, L + 1, L + L/5}
 	idOf := map[int]int{}
-	var sizes []int
-	for _, sz := range palette {
-		// every palette size four times, so a phase can hold up to four objects of the same size
+	var sizes, cps, cms []int
+	for pi, sz := range palette {
+		// every palette size four times, so a phase can hold up to four objects of the same size; the objects
+		// carry every combination of collisionProtection / conditionMappings values (incl. none) across the table
 		for k := 0; k < 4; k++ {
 			if k == 0 {
 				idOf[sz] = len(sizes)
 			}
 			sizes = append(sizes, sz)
+			cps = append(cps, (pi+k)%len(c14CPs))
+			cms = append(cms, (pi+2*k+1)%len(c14CMs))
 		}
 	}
 	sizes = append(sizes, 0) // one unmarshalable object
+	cps = append(cps, 2)
+	cms = append(cms, 1)
 	badID := len(sizes) - 1
 	N := r.Pick(3, 4)
 	count := 0
@@ -912,7 +1147,7 @@ func TestVerifC14Deploy(t *testing.T) {
 				ids[i] = idOf[sz] + u[sz]
 				u[sz]++
 			}
-			run(c14Scn{Strat: "binpack", Sizes: sizes, Ops: []c14Op{{Op: "chunk", Phases: [][]int{ids}}}})
+			run(c14Scn{Strat: "binpack", Sizes: sizes, Cps: cps, Cms: cms, Ops: []c14Op{{Op: "chunk", Phases: [][]int{ids}}}})
 			count++
 		}
 		if len(prefix) == N {
@@ -932,9 +1167,9 @@ func TestVerifC14Deploy(t *testing.T) {
 		{idOf[L/3], idOf[L/3]}, {idOf[L-1], idOf[c14MinSize], idOf[c14MinSize] + 1}}
 	for _, st := range strats {
 		for _, lay := range layouts {
-			run(c14Scn{Strat: st, Sizes: sizes, Ops: []c14Op{{Op: "chunk", Phases: [][]int{lay}}}})
+			run(c14Scn{Strat: st, Sizes: sizes, Cps: cps, Cms: cms, Ops: []c14Op{{Op: "chunk", Phases: [][]int{lay}}}})
 		}
-		run(c14Scn{Strat: st, Sizes: sizes, Ops: []c14Op{{Op: "chunk", Phases: layouts}}})
+		run(c14Scn{Strat: st, Sizes: sizes, Cps: cps, Cms: cms, Ops: []c14Op{{Op: "chunk", Phases: layouts}}})
 	}
 
 	// ---- 2. chunkers, random: 1..9 objects, sizes drawn around fractions of the limit
@@ -954,6 +1189,17 @@ func TestVerifC14Deploy(t *testing.T) {
 			return L + L/10 + rng.Intn(L/10)
 		default:
 			return c14MinSize + rng.Intn(L-c14MinSize)
+		}
+	}
+	// the rest of the ObjectSetObject: collisionProtection and conditionMappings drawn independently per object
+	// (one scenario in four: plain objects)
+	randMeta := func(s *c14Scn) {
+		if rng.Intn(4) == 0 {
+			return
+		}
+		for range s.Sizes {
+			s.Cps = append(s.Cps, rng.Intn(len(c14CPs)))
+			s.Cms = append(s.Cms, rng.Intn(len(c14CMs)))
 		}
 	}
 	n := r.Pick(400, 6000)
@@ -976,6 +1222,7 @@ func TestVerifC14Deploy(t *testing.T) {
 			ids = append(ids, ids[rng.Intn(len(ids))])
 		}
 		s.Ops = []c14Op{{Op: "chunk", Phases: [][]int{ids}}}
+		randMeta(&s)
 		run(s)
 	}
 
@@ -997,7 +1244,7 @@ func TestVerifC14Deploy(t *testing.T) {
 	for _, s0 := range slots {
 		for _, s1 := range slots {
 			for _, withSnap := range []bool{false, true} {
-				s := c14Scn{Strat: "each", Sizes: []int{200, 300, 400}}
+				s := c14Scn{Strat: "each", Sizes: []int{200, 300, 400}, Cps: []int{1, 0, 3}, Cms: []int{2, 1, 0}}
 				for c, sl := range []slot{s0, s1} {
 					if !sl.present {
 						continue
@@ -1032,6 +1279,7 @@ func TestVerifC14Deploy(t *testing.T) {
 			for j := 0; j < nobj; j++ {
 				s.Sizes = append(s.Sizes, c14MinSize+rng.Intn(400))
 			}
+			randMeta(&s)
 		} else {
 			s.Sizes = append([]int(nil), fixedSizes...)
 		}
@@ -1071,14 +1319,38 @@ func TestVerifC14Deploy(t *testing.T) {
 			s.Pre = append(s.Pre, c14Pre{At: at, C: rng.Intn(3) % 2, Objs: objs, Ctl: rng.Intn(3) > 0, Lbl: rng.Intn(4) > 0})
 		}
 		nops := 2 + rng.Intn(7)
+		nsets := 0 // ObjectSets that exist (the deployment exists from the first op on)
+		pick := func() int { // mostly an ObjectSet that exists, sometimes any index
+			if nsets > 0 && rng.Intn(6) > 0 {
+				return rng.Intn(nsets)
+			}
+			return rng.Intn(3)
+		}
 		for j := 0; j < nops; j++ {
-			switch x := rng.Intn(10); {
+			switch x := rng.Intn(12); {
 			case x < 5 || j == 0:
 				s.Ops = append(s.Ops, c14Op{Op: "deploy", Phases: randPhases()})
 			case x < 8:
 				s.Ops = append(s.Ops, c14Op{Op: "snap"})
+				nsets++
+			case x < 10:
+				// an existing revision is archived / paused / re-activated in spec, or deleted with its teardown
+				// pending: it still exists
+				if rng.Intn(3) == 0 {
+					s.Ops = append(s.Ops, c14Op{Op: "markdel", I: pick()})
+				} else {
+					s.Ops = append(s.Ops, c14Op{Op: "life", I: pick(),
+						St: []string{"archived", "archived", "paused", "active"}[rng.Intn(4)]})
+				}
+				if rng.Intn(3) > 0 { // ... and the package is updated while that revision is still around
+					s.Ops = append(s.Ops, c14Op{Op: "deploy", Phases: randPhases()})
+				}
 			default:
-				s.Ops = append(s.Ops, c14Op{Op: "delos", I: rng.Intn(3)})
+				i := pick()
+				s.Ops = append(s.Ops, c14Op{Op: "delos", I: i})
+				if i < nsets {
+					nsets--
+				}
 			}
 		}
 		return s
@@ -1107,9 +1379,16 @@ func TestVerifC14Deploy(t *testing.T) {
 		if rng.Intn(10) == 0 {
 			s.Sizes[rng.Intn(nobj)] = 0
 		}
+		randMeta(&s)
 		nops := 2 + rng.Intn(4)
 		for j := 0; j < nops; j++ {
-			switch x := rng.Intn(10); {
+			switch x := rng.Intn(11); {
+			case x == 10:
+				if rng.Intn(3) == 0 {
+					s.Ops = append(s.Ops, c14Op{Op: "markdel", I: rng.Intn(2)})
+				} else {
+					s.Ops = append(s.Ops, c14Op{Op: "life", I: rng.Intn(2), St: []string{"archived", "paused", "active"}[rng.Intn(3)]})
+				}
 			case x < 6 || j == 0:
 				np := 1 + rng.Intn(2)
 				phs := make([][]int, np)
@@ -1132,7 +1411,8 @@ func TestVerifC14Deploy(t *testing.T) {
 	for _, st := range []string{"binpack", "default", "junk"} {
 		for _, withSnap := range []bool{false, true} {
 			for _, preExisting := range []bool{false, true} {
-				s := c14Scn{Strat: st, Sizes: []int{L/2 + 10, L/2 + 10, 0, 200, L / 3}}
+				s := c14Scn{Strat: st, Sizes: []int{L/2 + 10, L/2 + 10, 0, 200, L / 3},
+					Cps: []int{0, 1, 2, 3, 0}, Cms: []int{1, 0, 2, 3, 0}}
 				if preExisting {
 					s.Ops = append(s.Ops, c14Op{Op: "deploy", Phases: [][]int{{3}}})
 				}
@@ -1199,12 +1479,53 @@ func TestVerifC14Deploy(t *testing.T) {
 	}
 	r.Extra["real_collision_pairs"] = len(c14Collisions)
 
+	// ---- 8. package v1 -> v2 -> v3 (-> v4) where the older revisions still EXIST but are not active any more:
+	// revision 1 archived / paused / (re-)activated in spec and / or deleted with its teardown pending when v3
+	// arrives, revision 2 likewise when v4 arrives; v4 shares a slice with v1 and one with v3; finally revision 1 is
+	// gone for good (its slices are collected) and the package goes back to v1.  EachObject with small objects and the
+	// real BinpackNextFit with objects of half a MiB.
+	for _, st := range []string{"each", "binpack"} {
+		for _, st1 := range []string{"", "active", "paused", "archived"} {
+			for _, del1 := range []bool{false, true} {
+				for _, st2 := range []string{"", "archived", "paused"} {
+					s := c14Scn{Strat: st, Sizes: []int{300, 310, 320, 330, 340, 350},
+						Cps: []int{0, 1, 2, 3, 0, 1}, Cms: []int{0, 0, 1, 2, 3, 3}}
+					if st == "binpack" {
+						s.Sizes = []int{L/2 + 10, L/2 + 11, L/2 + 12, L/2 + 13, L/2 + 14, L/2 + 15}
+					}
+					s.Ops = []c14Op{{Op: "deploy", Phases: [][]int{{0, 1}}}, {Op: "snap"},
+						{Op: "deploy", Phases: [][]int{{2, 3}}}, {Op: "snap"}}
+					if st1 != "" {
+						s.Ops = append(s.Ops, c14Op{Op: "life", I: 0, St: st1})
+					}
+					if del1 {
+						s.Ops = append(s.Ops, c14Op{Op: "markdel", I: 0})
+					}
+					s.Ops = append(s.Ops, c14Op{Op: "deploy", Phases: [][]int{{4, 5}}})
+					if st2 != "" {
+						s.Ops = append(s.Ops, c14Op{Op: "life", I: 1, St: st2})
+					}
+					s.Ops = append(s.Ops, c14Op{Op: "snap"}, c14Op{Op: "deploy", Phases: [][]int{{4, 1}}},
+						c14Op{Op: "delos", I: 0}, c14Op{Op: "deploy", Phases: [][]int{{4, 1}}},
+						c14Op{Op: "life", I: 0, St: "active"}, c14Op{Op: "deploy", Phases: [][]int{{0, 1}}})
+					run(s)
+				}
+			}
+		}
+	}
+
 	// ---- 6. malformed stream
 	run(c14Scn{Strat: "each", Sizes: []int{200}, Ops: []c14Op{{Op: "deploy", Phases: [][]int{{1}}}}})
 	run(c14Scn{Strat: "each", Sizes: []int{5}, Ops: []c14Op{{Op: "deploy", Phases: [][]int{{0}}}}})
 	run(c14Scn{Strat: "each", Sizes: []int{0}, Ops: []c14Op{{Op: "deploy", Phases: [][]int{{0}}}}})
 	run(c14Scn{Strat: "what", Sizes: []int{200}, Ops: []c14Op{{Op: "deploy", Phases: [][]int{{0}}}}})
 	run(c14Scn{Strat: "each", Sizes: []int{200}, Ops: []c14Op{{Op: "frob"}}})
+	run(c14Scn{Strat: "each", Sizes: []int{200}, Ops: []c14Op{{Op: "deploy", Phases: [][]int{{0}}}, {Op: "snap"}, {Op: "life", I: 0, St: "frozen"}}})
+	run(c14Scn{Strat: "each", Sizes: []int{200}, Cps: []int{4}, Ops: []c14Op{{Op: "deploy", Phases: [][]int{{0}}}}})
+	run(c14Scn{Strat: "each", Sizes: []int{200}, Cms: []int{7}, Ops: []c14Op{{Op: "deploy", Phases: [][]int{{0}}}}})
+	// life / markdel of an ObjectSet that does not exist: nothing happens
+	run(c14Scn{Strat: "each", Sizes: []int{200}, Ops: []c14Op{{Op: "life", I: 0, St: "archived"}, {Op: "deploy", Phases: [][]int{{0}}},
+		{Op: "snap"}, {Op: "markdel", I: 3}, {Op: "life", I: -1, St: "archived"}, {Op: "deploy", Phases: [][]int{{}}}}})
 	run(c14Scn{Strat: "each", Sizes: []int{200}, Pre: []c14Pre{{At: []int{0}, C: 99, Objs: []int{0}}}, Ops: []c14Op{{Op: "snap"}}})
 	// collision declarations: sizes not the ones the collision holds for; alias of an alias; same content twice
 	run(c14Scn{Strat: "each", Sizes: []int{200, 300}, Coll: []c14Coll{{A: []int{0}, B: []int{1}, SA: []int{200}, SB: []int{301}}},
